@@ -133,6 +133,10 @@ pub struct SimOpts {
     /// flip every fallible/infallible choice (C09 twin)
     pub flip_fallible: bool,
     pub record_trace: bool,
+    /// force every fallible/infallible choice (C09 twin: Some(true) = try_ spelling, Some(false) = panicking spelling)
+    pub force_fallible: Option<bool>,
+    /// several threads drive arenas concurrently: only drain this arena's ledger events
+    pub threaded: bool,
 }
 
 pub struct Sim<const M: usize> {
@@ -346,7 +350,11 @@ impl<const M: usize> Sim<M> {
     /// Drain ledger events produced by the step that just ran and apply the event oracles.
     pub fn absorb_events(&mut self, kind: OpKind) {
         let mut evs = std::mem::take(&mut self.evbuf);
-        ledger::take_events(&mut evs);
+        if self.opts.threaded {
+            ledger::take_events_for(self.id, &mut evs);
+        } else {
+            ledger::take_events(&mut evs);
+        }
         self.step_events.clear();
         for ev in evs.iter() {
             if ev.arena != self.id {
